@@ -1,10 +1,10 @@
 #!/bin/bash
-# sweep.sh <tier> <seed> [seed...] : runs every claimed check at the given seeds, prints one line per run, exit 1 if any run is not rc 0.
+# [PROPS="C01 C02"] sweep.sh <tier> <seed> [seed...] : runs every claimed check at the given seeds, prints one line per run, exit 1 if any run is not rc 0.
 cd "$(dirname "$0")/.." || exit 2
 tier="$1"; shift
 bad=0
 for seed in "$@"; do
-  for p in $(python3 -c "import json;print(' '.join(c['property_id'] for c in json.load(open('MANIFEST.json'))['checks']))"); do
+  for p in ${PROPS:-$(python3 -c "import json;print(' '.join(c['property_id'] for c in json.load(open('MANIFEST.json'))['checks']))")}; do
     out=$(VERIF_SEED=$seed ./run $p $tier 2>&1); rc=$?
     line=$(echo "$out" | grep -E "^$p $tier seed=" | tail -1)
     echo "seed=$seed rc=$rc $line"
